@@ -9,7 +9,7 @@ import random
 import numpy as np
 
 from rtc import util
-from rtc.fixtures import END_WARMUP, expected_trace, kernel_logs, make_engine, mk_cfg
+from rtc.fixtures import END_WARMUP, RecordingKernel, expected_trace, kernel_logs, make_engine, mk_cfg
 
 NAMES = {1: "START", 2: "TRANS", 3: "END", 4: "TUNE", 5: "END_WARMUP"}
 
@@ -80,6 +80,61 @@ def run_case(col, schedule, chunk, chains, kernels, needs_history, mode):
     col.add(None)
 
 
+def stateless_kernel_case(col):
+    """a kernel whose state is an EMPTY pytree (like GibbsKernel) next to a stateful one: the lifecycle calls reach it like every other kernel. The calls
+    are counted through Python side effects at the (un-jitted) epoch boundaries"""
+    import jax
+    import jax.numpy as jnp
+    import liesel.goose as gs
+    from liesel.goose.engine import Engine
+    from liesel.goose.kernel import DefaultTransitionInfo, DefaultTuningInfo, ModelMixin, TransitionOutcome, TuningOutcome, WarmupOutcome
+    from liesel.goose.kernel_sequence import KernelSequence
+    log = []
+
+    class Stateless(ModelMixin):
+        error_book = {0: "no errors"}
+        needs_history = False
+        identifier = ""
+
+        def __init__(self, keys):
+            self._model = None
+            self.position_keys = tuple(keys)
+
+        def init_state(self, prng_key, model_state):
+            return {}
+
+        def start_epoch(self, prng_key, kernel_state, model_state, epoch):
+            log.append(("start_epoch", int(epoch.config.type)))
+            return kernel_state
+
+        def end_epoch(self, prng_key, kernel_state, model_state, epoch):
+            log.append(("end_epoch", int(epoch.config.type)))
+            return kernel_state
+
+        def transition(self, prng_key, kernel_state, model_state, epoch):
+            return TransitionOutcome(DefaultTransitionInfo(0, jnp.float32(1.0), jnp.int32(0)), kernel_state, model_state)
+
+        def tune(self, prng_key, kernel_state, model_state, epoch, history=None):
+            log.append(("tune", int(epoch.config.type)))
+            return TuningOutcome(DefaultTuningInfo(0, epoch.time), kernel_state)
+
+        def end_warmup(self, prng_key, kernel_state, model_state, tuning_history):
+            log.append(("end_warmup", -1))
+            return WarmupOutcome(0, kernel_state)
+
+    sched = [(0, 1, 1), (1, 4, 1), (3, 2, 1), (4, 4, 1)]
+    k0, k1 = Stateless(["p0"]), RecordingKernel(["p1"])
+    model = gs.DictInterface(lambda s_: 0.0)
+    for i, k in enumerate((k0, k1)):
+        k.set_model(model)
+        k.identifier = f"kernel_{i:02d}"
+    eng = Engine(seeds=jax.random.split(jax.random.PRNGKey(0), 2), model_states={"p0": jnp.zeros(2), "p1": jnp.zeros(2)}, kernel_sequence=KernelSequence([k0, k1]),
+                 epoch_configs=[mk_cfg(*c) for c in sched], jitted_sample_duration=2, model=model, position_keys=None, show_progress=False)
+    eng.sample_all_epochs()
+    want = [("start_epoch", 1), ("end_epoch", 1), ("tune", 1), ("start_epoch", 3), ("end_epoch", 3), ("end_warmup", -1), ("start_epoch", 4), ("end_epoch", 4)]
+    col.add(None if log == want else {"sig": "native::engine::stateless_kernel_lifecycle", "what": f"kernel with an empty state received {log}, expected {want}", "input": {"schedule": sched}})
+
+
 def _fmt(e):
     return f"{NAMES.get(e[0], e[0])}(epoch={e[1]}, type={e[2]}, time_in_epoch={e[3]}, time={e[4]}, history={e[5]})"
 
@@ -111,12 +166,16 @@ def bounded(tier, seed):
             sched = [(0, 1, 1)] + [(t, 2, 1) for t in ts]
             cases.append((sched, 2, 1, 1, (True, False), "all"))
             cases.append((sched, 1, 2, 2, (False, True), "incremental"))
+    try:
+        stateless_kernel_case(col)
+    except Exception as e:
+        col.add({"sig": "native::engine::exception", "what": f"stateless kernel: {type(e).__name__}: {str(e)[:200]}", "input": {"scenario": "stateless kernel"}})
     for cse in cases:
         run_case(col, *cse)
     return {
         "evaluations": col.evals,
         "distinct_nontrivial": len({repr(c) for c in cases}),
-        "rule": (f"BOUNDED: real Engine with recording kernels (events logged inside the kernel state, per chain) on {len(cases)} cases: fixed schedules "
+        "rule": (f"BOUNDED: real Engine with recording kernels (events logged inside the kernel state, per chain; plus one kernel with an EMPTY state whose calls are counted by side effects) on {len(cases)} cases: fixed schedules "
                  "([BURNIN,POST,POST], [POST], [FAST,SLOW,POST], ...) plus seeded random valid schedules of <= 3 epochs after the initial one, durations = chunk x 1..3, "
                  "thinning dividing the duration, chunk in 1..3, chains in {1,3}, kernels in {1,2}, history requirement per kernel, schedules whose consecutive equal epochs share ONE configuration object (given up front and appended), and three driving modes "
                  f"(sample_all_epochs / append_epoch + sample_next_epoch one at a time / mixed); thorough adds all {len(seqs)} valid type sequences. seed={seed}."),
